@@ -30,23 +30,50 @@ def check_fracture(ctx, db):
     first = body[0]
     ok = first.k == 'IfStmt' and norm(first.child('cond').text(ren)) == '($max_points <= 4)' and first.child('then').k == 'ReturnStmt'
     ctx.check(ok, 'R-SHAPE', 'fracture/limit-guard', f.loc(), 'a limit below five leaves the polygon alone (immediate return)')
-    loops = [s for s in body if s.k == 'ForStmt']
-    if len(loops) != 2:
+    from .. import loops as LP
+    LOOPK = ('ForStmt', 'WhileStmt', 'DoStmt')
+    # the work loop: the outermost loop that slices; the inheritance loop: the loop that copies the properties to every piece
+    work = next((l for l in f.walk() if l.k in LOOPK and LP.enclosing_loop(l) is None and any(c.k == 'CallExpr' and c.callee == 'gdstk::slice' for c in l.walk())), None)
+    inh = next((l for l in f.walk() if l.k in LOOPK and LP.enclosing_loop(l) is None and l is not work and
+                (any(c.k == 'CallExpr' and (c.callee or '').endswith('properties_copy') for c in l.walk()) or
+                 any(is_assign(x) and norm(x.child('lhs').text()).endswith('->tag') for x in l.walk()) or
+                 any(c.k == 'CXXMemberCallExpr' and (c.callee or '').endswith('Repetition::copy_from') for c in l.walk()))), None)
+    if work is None or inh is None or work is inh:
         raise AnalysisBroken('Polygon::fracture: expected a work loop and an inheritance loop')
-    work, inh = loops
     t = norm(clone.canon(inh, f, ren=ren))
-    ok = re.search(r'for \(uint64_t v\d+ = 0; \(v\d+ < \$result\.count\); \(v\d+\+\+\)\)', t) is not None and '->tag = this->tag)' in t and \
+    rk = lvalue_key(next(x for x in f.walk() if x.k == 'DeclRefExpr' and x.dk == 'param' and x.n == f.params[2]['n'])) if len(f.params) >= 3 else None
+    trip = LP.Loop(f, inh).trip()
+    ok = trip is not None and rk is not None and trip == {rk + '.count': 1} and '->tag = this->tag)' in t and \
         '->repetition.copy_from(Repetition{this->repetition})' in t and '->properties = properties_copy(this->properties))' in t
-    ctx.check(ok, 'R-COPY', 'fracture/pieces-inherit', inh.loc(), 'every piece receives the tag, a deep copy of the repetition and of the properties', 'inheritance loop: %s' % t[:300])
-    # work loop progress
-    ok = work.child('inc') is None
-    incs = [u for u in work.walk() if u.k == 'UnaryOperator' and u.op in ('++', 'post++') and u.child('sub').k == 'DeclRefExpr' and u.child('sub').n == 'i']
-    guard = next((i for i in work.child('body').c if i is not None and i.k == 'IfStmt'), None)
-    ok = ok and len(incs) == 1 and guard is not None and re.match(r'^\(v\d+ <= \$max_points\)$', norm(guard.child('cond').text(ren))) is not None and any(x is incs[0] for x in guard.child('then').walk()) \
-        and any(x.k == 'ContinueStmt' for x in guard.child('then').walk())
+    ctx.check(ok, 'R-COPY', 'fracture/pieces-inherit', inh.loc(), 'every piece receives the tag, a deep copy of the repetition and of the properties', 'inheritance loop (trip %s): %s' % (trip, t[:300]))
+    # work loop progress, decided on the CFG: a piece over the limit is removed at the current index (remove_unordered moves the last,
+    # unexamined piece into that slot), so no increment of the index may be reachable from the removal before the loop test; the
+    # index advances on the path that finds the piece small enough
+    g = f.cfg
     rem = [c for c in work.walk() if c.k == 'CXXMemberCallExpr' and (c.callee or '').endswith('::remove_unordered')]
-    ok = ok and len(rem) == 1 and norm(rem[0].child('obj').text(ren)) == '$result' and rem[0].args[0].text() == 'i'
-    ctx.check(ok, 'R-LOOP', 'fracture/work-loop', work.loc(), 'the loop advances only past small-enough pieces; a large piece is removed at index i and replaced by its slices (then re-examined)')
+    why = None
+    if len(rem) != 1 or rk is None or lvalue_key(_strip_casts(rem[0].child('obj'))) != rk or _strip_casts(rem[0].args[0]).k != 'DeclRefExpr':
+        why = 'the piece over the limit is not removed from the result at the loop index'
+    else:
+        iv = _strip_casts(rem[0].args[0])
+        incs = [u for u in work.walk() if ((u.k == 'UnaryOperator' and u.op in ('++', 'post++')) or (u.k == 'CompoundAssignOperator' and u.op == '+=')) and _strip_casts(u.child('sub') or u.child('lhs')).k == 'DeclRefExpr'
+                and _strip_casts(u.child('sub') or u.child('lhs')).d == iv.d]
+        wc = g.where_node(work.child('cond')) if work.child('cond') is not None else None
+        wr = g.where_node(rem[0])
+        if not incs:
+            why = 'the work loop never advances its index'
+        elif wc is None or wr is None:
+            raise AnalysisBroken('Polygon::fracture: work loop not located in the CFG')
+        else:
+            for u in incs:
+                wu = g.where_node(u)
+                if wu is not None and g.path_avoiding(wr, lambda b, i, nid, wu=wu: (b, i) == wu, lambda b, i, nid: (b, i) == wc) is not None:
+                    why = 'after remove_unordered(%s) the index is advanced at %s before the slot is examined again: the piece moved into the slot is never checked against the limit' % (iv.n, u.loc())
+            # the advance happens under `count <= max_points`
+            small = [any(('max_points' in norm(c_.text())) and p_ for c_, p_ in tables.path_conds(u, stop=work)) or work.child('inc') is not None and any(y is u for y in work.child('inc').walk()) for u in incs]
+            if why is None and not any(small):
+                why = 'no advance of the index under the small-enough test'
+    ctx.check(why is None, 'R-LOOP', 'fracture/work-loop', work.loc(), 'the loop advances only past small-enough pieces; a large piece is removed at index i and replaced by its slices (then re-examined)', why)
     # cut index
     frac = next((v for v in work.walk() if v.k == 'VarDecl' and v.n == 'frac'), None)
     idx = [x for x in work.walk() if x.k == 'CXXOperatorCallExpr' and x.op == '[]' and frac is not None and any(y.k == 'DeclRefExpr' and y.d == frac.d for y in x.walk())]
@@ -64,7 +91,9 @@ def check_fracture(ctx, db):
     # bins
     ch = next((v for v in work.walk() if v.k == 'VarDecl' and v.n == 'chopped'), None)
     ok = ch is not None and '((cuts.count + 1) * sizeof(' in norm(ch.child('init').text())
-    cl = [l for l in work.walk() if l.k == 'ForStmt' and norm(l.child('cond').text()).endswith('<= cuts.count)')]
+    cutsd = next((v for v in work.walk() if v.k == 'VarDecl' and v.n == 'cuts'), None)
+    ck = ('v%d:cuts.count' % cutsd.d) if cutsd is not None else None
+    cl = [l for l in work.walk() if l.k in LOOPK and l is not work and ck is not None and LP.Loop(f, l).trip() == {ck: 1, 1: 1}]
     ext = [c for c in work.walk() if c.k == 'CXXMemberCallExpr' and (c.callee or '').endswith('::extend') and 'chopped[' in norm(c.args[0].text())]
     ctx.check(ok and len(cl) == 2 and len(ext) == 1, 'R-AGG', 'fracture/all-bins', work.loc(), 'cuts.count + 1 bins are allocated and all of them are appended to the result')
     sl = next((c for c in work.walk() if c.k == 'CallExpr' and c.callee == 'gdstk::slice'), None)
